@@ -27,7 +27,8 @@ FlagSpace == [ np     : 1..4,                       \* pages
                brep   : BOOLEAN,                    \* body line repeating on every page at the same place
                bnum   : BOOLEAN,                    \* purely numeric body line
                beqh   : BOOLEAN,                    \* body line whose text equals the header text
-               title  : BOOLEAN,                    \* a unique top-band line on page 1
+               title  : {"none", "once", "twice"},  \* a top-band line found on page 1 only; "twice": drawn twice at the same
+                                                    \* place (emboldening by overprinting) - still on no other page
                short  : BOOLEAN,                    \* last page has little content (content bounds << page)
                cover  : BOOLEAN ]                   \* page 1 is a cover: no running header, footer line or page number
 
@@ -36,7 +37,8 @@ FlagSpace == [ np     : 1..4,                       \* pages
 F(b, s, k, n) == [band |-> b, slot |-> s, key |-> k, num |-> n]
 
 PageOf(fl, p) ==
-    (IF fl.title /\ p = 1 THEN <<F("Top", 2, 7, FALSE)>> ELSE <<>>)
+    (IF fl.title # "none" /\ p = 1 THEN <<F("Top", 2, 7, FALSE)>> ELSE <<>>)
+    \o (IF fl.title = "twice" /\ p = 1 THEN <<F("Top", 2, 7, FALSE)>> ELSE <<>>)
     \o (CASE fl.cover /\ p = 1 -> <<>>
           [] fl.hdr = "all" -> <<F("Top", 1, 1, FALSE)>>
           [] fl.hdr = "oddeven" -> <<F("Top", 1, IF p % 2 = 1 THEN 1 ELSE 2, FALSE)>>
